@@ -42,8 +42,10 @@ type Case struct {
 	AdminIPs []string                       `json:"admin_ips"`
 	Perms    map[string]map[string][]string `json:"permissions"`
 	// RelStorage: relative storage-path, and every start of the daemon from another working directory
-	RelStorage bool   `json:"relative_storage_path,omitempty"`
-	Steps      []Step `json:"steps"`
+	RelStorage bool `json:"relative_storage_path,omitempty"`
+	// BigStore: the protection store starts out with 1500 foreign records (see daemon.go)
+	BigStore bool   `json:"big_store,omitempty"`
+	Steps    []Step `json:"steps"`
 }
 
 func root(a uint64, s byte) []byte {
@@ -121,8 +123,8 @@ var propertyOf = map[string]string{
 }
 
 type outcome struct {
-	released, refused, restarts, foreign, listed, created, managed int
-	trace                                                          []string
+	released, refused, restarts, foreign, listed, created, managed, races int
+	trace                                                                 []string
 }
 
 type result struct {
@@ -131,7 +133,7 @@ type result struct {
 }
 
 func run(c *Case, only string) (*outcome, *vkit.Violation, error) {
-	d, err := NewDaemon(&Config{AdminIPs: c.AdminIPs, Permissions: c.Perms, RelStorage: c.RelStorage})
+	d, err := NewDaemon(&Config{AdminIPs: c.AdminIPs, Permissions: c.Perms, RelStorage: c.RelStorage, BigStore: c.BigStore})
 	if err != nil {
 		return nil, nil, err
 	}
@@ -203,6 +205,94 @@ func run(c *Case, only string) (*outcome, *vkit.Violation, error) {
 				}
 
 				return o, nil, fmt.Errorf("%s: daemon died: %s", where, d.Logs())
+			}
+
+			continue
+		}
+		if s.Kind == "pause" {
+			time.Sleep(3 * time.Second)
+			o.trace = append(o.trace, "pause")
+
+			continue
+		}
+		if s.Kind == "race" {
+			// the same request (one attestation, or one generic signature) from several callers at the same
+			// moment; every answer is judged for the caller it went to
+			a := world.Accounts[s.Accs[0]%len(world.Accounts)]
+			key := fmt.Sprintf("%x", a.PubKey)
+			racers := []string{"alice", "carol", "bob", "mallory", "alice"}
+			type ans struct {
+				state string
+				sig   []byte
+				err   error
+			}
+			answers := make([]ans, len(racers))
+			var att *vkit.Att
+			var sigRoot [32]byte
+			op := "Sign"
+			if s.Dom == "own" {
+				op = "Sign beacon attestation"
+				dom := domain("attester", "attest")
+				att = &vkit.Att{Slot: 1, BlockRoot: root(uint64(s.Root), 1), SrcEpoch: s.Src, SrcRoot: root(0, 2), TgtEpoch: s.Tgt, TgtRoot: root(0, 3), Domain: dom}
+				sigRoot = vkit.SigningRoot(vkit.AttDataRoot(att), dom)
+			} else {
+				var d32 [32]byte
+				copy(d32[:], root(uint64(s.Root), 7))
+				sigRoot = vkit.SigningRoot(d32, domain("generic", "sign"))
+			}
+			var wg sync.WaitGroup
+			for ri, cl := range racers {
+				wg.Add(1)
+				go func(ri int, cl string) {
+					defer wg.Done()
+					cr, _ := credOf(cl)
+					resp := &pb.SignResponse{}
+					if att != nil {
+						answers[ri].err = d.Invoke(cr, "/v1.Signer/SignBeaconAttestation", &pb.SignBeaconAttestationRequest{Id: &pb.SignBeaconAttestationRequest_Account{Account: a.Path()}, Domain: att.Domain,
+							Data: &pb.AttestationData{Slot: 1, BeaconBlockRoot: att.BlockRoot, Source: &pb.Checkpoint{Epoch: att.SrcEpoch, Root: att.SrcRoot}, Target: &pb.Checkpoint{Epoch: att.TgtEpoch, Root: att.TgtRoot}}}, resp)
+					} else {
+						answers[ri].err = d.Invoke(cr, "/v1.Signer/Sign", &pb.SignRequest{Id: &pb.SignRequest_Account{Account: a.Path()}, Data: root(uint64(s.Root), 7), Domain: domain("generic", "sign")}, resp)
+					}
+					answers[ri].state, answers[ri].sig = resp.GetState().String(), resp.GetSignature()
+				}(ri, cl)
+			}
+			wg.Wait()
+			o.races++
+			anyReleased := false
+			for ri, cl := range racers {
+				an := answers[ri]
+				released := len(an.sig) > 0
+				cr, trusted := credOf(cl)
+				if released != (an.state == "SUCCEEDED" && an.err == nil) {
+					report("state-and-signature-disagree", "%s: the answer to %s has state %s and %d signature bytes", where, cl, an.state, len(an.sig))
+				}
+				if !released {
+					continue
+				}
+				switch {
+				case !trusted:
+					report("served-without-ca-certificate", "%s: %s (no certificate from the configured authority) was given a signature", where, cl)
+				case !pc.Allowed(cr.CN, a.Wallet, a.Name, op):
+					report("served-without-permission", "%s: %s was given a signature for %s although its permissions refuse %q (sent at the same moment as the same request from other callers)", where, cl, a.Path(), op)
+				}
+				if err := vkit.VerifySig(a.PubKey, sigRoot, an.sig); err != nil {
+					report("signature-invalid", "%s: the signature given to %s does not verify: %v", where, cl, err)
+				}
+				anyReleased = true
+			}
+			if anyReleased && att != nil {
+				o.released++
+				if why, bad := hist.AddAtt(key, att); bad {
+					report("slashable-attestation-released", "%s: %s", where, why)
+				}
+				model.ApplyAtt(key, att)
+			}
+			o.trace = append(o.trace, fmt.Sprintf("race %s %s -> %v", op, a.Path(), answers))
+			if !d.Alive() {
+				report("daemon-died", "%s: the daemon process is gone: %s", where, d.Logs())
+			}
+			if viol != nil {
+				return o, viol, nil
 			}
 
 			continue
@@ -617,6 +707,7 @@ func genPerms(t *rapid.T) map[string]map[string][]string {
 
 func genCase(t *rapid.T) *Case {
 	c := &Case{AdminIPs: rapid.SampledFrom([][]string{{}, {"127.0.0.1"}, {"10.1.2.3"}, {"10.1.2.3"}, {"10.1.2.3", "127.0.0.1"}, {"127.0.0.11"}, {"192.168.7.7", "127.0.0.2"}}).Draw(t, "admin_ips"), Perms: genPerms(t), RelStorage: rapid.IntRange(0, 2).Draw(t, "rel_storage") == 0}
+	c.BigStore = !c.RelStorage && rapid.IntRange(0, 5).Draw(t, "big_store") == 0
 	type fl struct{ src, tgt, slot int64 }
 	floors := map[int]*fl{}
 	floor := func(k int) *fl {
@@ -653,13 +744,19 @@ func genCase(t *rapid.T) *Case {
 			s.Kind = "list"
 		case k < 94:
 			s.Kind = "burst"
+			if rapid.Bool().Draw(t, "race") {
+				s.Kind, s.Accs = "race", []int{acc % 5}
+				if rapid.Bool().Draw(t, "race_generic") {
+					s.Dom = "generic"
+				}
+			}
 		case k < 99:
 			s.Kind = "restart-kill"
 		default:
 			s.Kind = "restart-term"
 		}
 		switch s.Kind {
-		case "attest", "attests":
+		case "attest", "attests", "race":
 			src := f.src + int64(rapid.IntRange(-1, 1).Draw(t, "dsrc"))
 			if src < 0 {
 				src = 0
@@ -718,6 +815,30 @@ func genCase(t *rapid.T) *Case {
 		}
 	}
 
+	if c.BigStore {
+		// a case on the large store always ends with: a duty of each kind for an account alice may use,
+		// restart, advancing duties, a pause that outlasts anything the daemon may be doing to its whole
+		// store, then the same duties with other content
+		fixture := [][2]string{{WA, "a"}, {WA, "b"}, {WB, "a"}, {WB, "c"}, {WC, "a"}}
+		pc := perms(c)
+		for ai, wn := range fixture {
+			if !pc.Allowed("alice", wn[0], wn[1], "Sign beacon attestation") || !pc.Allowed("alice", wn[0], wn[1], "Sign beacon proposal") {
+				continue
+			}
+			f := floor(ai)
+			base := uint64(f.tgt) + 3
+			slot := uint64(f.slot) + 3
+			mk := func(kind string, d uint64, rt int) Step {
+				return Step{Kind: kind, Client: "alice", Accs: []int{ai}, Src: base + d, Tgt: base + d + 1, Slot: slot + d, Root: rt, Dom: "own"}
+			}
+			c.Steps = append(c.Steps, mk("attest", 0, 0), mk("propose", 0, 0),
+				Step{Kind: rapid.SampledFrom([]string{"restart-term", "restart-kill"}).Draw(t, "big_restart")},
+				mk("attest", 2, 0), mk("propose", 2, 0), Step{Kind: "pause"}, mk("attest", 2, 1), mk("propose", 2, 1))
+
+			break
+		}
+	}
+
 	return c
 }
 
@@ -731,12 +852,15 @@ func TestE2E(t *testing.T) {
 		if err := json.Unmarshal(r.Case, &c); err != nil {
 			t.Fatalf("bad replay case: %v", err)
 		}
-		o, v, err := run(&c, only)
-		if err != nil {
-			t.Fatalf("replay infrastructure error: %v", err)
+		// races, bursts and concurrent deliveries depend on timing: a replay gets five attempts
+		for attempt := 0; attempt < 5; attempt++ {
+			o, v, err := run(&c, only)
+			if err != nil {
+				t.Fatalf("replay infrastructure error: %v", err)
+			}
+			t.Logf("replay: trace=%v", o.trace)
+			vkit.Report(t, only, "TestE2E", &c, v)
 		}
-		t.Logf("replay: trace=%v", o.trace)
-		vkit.Report(t, only, "TestE2E", &c, v)
 	}
 	if vkit.ReplayOnly() {
 		return
@@ -753,8 +877,12 @@ func TestE2E(t *testing.T) {
 		vkit.S.ClassN("e2e:signatures-released-by-the-daemon", o.released)
 		vkit.S.ClassN("e2e:requests-refused-by-the-daemon", o.refused)
 		vkit.S.ClassN("e2e:daemon-restarts", o.restarts)
+		if c.BigStore {
+			vkit.S.Class("e2e:daemon-on-a-store-with-1500-foreign-records")
+		}
 		vkit.S.ClassN("e2e:calls-without-a-certificate-from-the-authority", o.foreign)
 		vkit.S.ClassN("e2e:listings", o.listed)
+		vkit.S.ClassN("e2e:identical-requests-from-several-callers-at-once", o.races)
 		vkit.S.ClassN("e2e:accounts-created-through-the-daemon", o.created)
 		vkit.S.ClassN("e2e:lock-unlock-create-operations-carried-out", o.managed)
 		if o.released > 0 && o.refused > 0 {
